@@ -23,7 +23,7 @@ TIERS = {
 }
 NEG = [("NegForgetsPersist.cfg", "WriteThrough"), ("NegPersistsBeforeStoring.cfg", "WriteThrough"),
        ("NegClobbersOther.cfg", "WriteThrough"), ("NegClobbersOtherFrame.cfg", "Frame"),
-       ("NegStaleLive.cfg", "WriteThrough")]
+       ("NegStaleLive.cfg", "WriteThrough"), ("NegDestroysStored.cfg", "WriteThrough")]
 
 
 def _pmap(fn, items):
